@@ -49,9 +49,12 @@ TRUSTED = ["weakref.WeakKeyDictionary modelled as an equality-keyed map (keys co
            "callbacks are abstract functions recording their calls",
            "history tasks: " + H_BOUND + "; " + E_BOUND + " (enumerated shapes, every choice explored; no induction over the length)",
            "the per-call subscriptions of RE(plan, subs) are made by the loop over normalize_subs_input(subs) inside RunEngine.__call__, executed "
-           "here as a fragment of the real function body (located by its use of _temp_callback_ids) right after the real _clear_call_cache"]
-NOT_DECIDED = ("bound-method callbacks whose owner is garbage-collected (automatic unsubscription through weak references); histories longer "
-               "than the stated bounds")
+           "here as a fragment of the real function body (the loop using _temp_callback_ids together with the self._clear_*() calls directly in "
+           "front of it); the rest of __call__ / _run does not touch subscriptions",
+           "documents are observed by Dispatcher.process of one document per name after every operation (the native replay of the RunEngine "
+           "histories performs a real run instead: start, descriptor, event, stop)"]
+NOT_DECIDED = ("bound-method callbacks (equal but not identical callables; automatic unsubscription through weak references when the owner is "
+               "garbage-collected); histories longer than the stated bounds; RunEngine.reset")
 KF = "C18-equal-callables-share-registration"
 DOCNAMES = V["DOCNAMES"]
 
@@ -383,7 +386,7 @@ class DispatcherBench(Bench):
         kind, c, filt, idx = V["parse"](op)
         self.ops.append(op)
         if kind == "subscribe":
-            t, bad = self.real(I.getattr(d, "subscribe"), self.cbs[c], filt)
+            t, bad = self.real(I.getattr(d, "subscribe"), *V["subscribe_args"](c, filt, self.cbs))
             self.judge(D_FRESH, bad or V["fresh_token_problems"](view, t))
             self.tokens.append(t)
             view.subscribed(t, c, filt)
